@@ -27,11 +27,14 @@ def main():
             ("c04", {"P": "2", "C": "2", "beh": "4"}, 25 if q else 120, True),
             ("c02", {"P": "2", "C": "2", "beh": "2", "via": "4", "fp": "2"}, 20 if q else 120, True),
             ("c20-ticker", {}, 10 if q else 40, True),
+            ("c20-journal", {"polls": "3"}, 8 if q else 30, True),
+            ("c14", {"requests": "2", "alphabet": "reduced"}, 15 if q else 60, True),
             ("c19-counter", {}, 10 if q else 60, False),
         ]),
         (tt_common.build, [("c17a", {"carriers": "2", "fails": "4", "dialends": "1", "closes": "2"}, 15 if q else 90, True), ("c17b-conc", {}, 10 if q else 60, True)]),
         (client_common.build, [("c15", {"maxes": "2", "script": "2", "end2s": "3"}, 15 if q else 90, True)]),
-        (server_common.build, [("c05", {"sessions": "2", "other": "single", "light": "1"}, 15 if q else 90, True), ("c01", {"faults": "1", "payloads": "1", "maxidx": "4"}, 20 if q else 120, True)]),
+        (server_common.build, [("c05", {"sessions": "2", "other": "single", "light": "1"}, 15 if q else 90, True), ("c01", {"faults": "1", "payloads": "1", "maxidx": "4"}, 20 if q else 120, True),
+                               ("c18-ringconc", {"setters": "3"}, 8 if q else 30, True)]),
         (proxy_common.build, [("c16", {"capacities": "2", "maxlen": "2"}, 15 if q else 90, True)]),
         (safelog_common.build, [("c07-writers", {"writers": "2"}, 8 if q else 40, False)]),
     ]
